@@ -672,6 +672,12 @@ impl Env {
         if cwd == dir {
             return Err("the scratch manifest directory must differ from the current directory".into());
         }
+        // one process may expand derives for several crates (rust-analyzer's proc-macro server does):
+        // a first expansion on behalf of *another* crate - the decoy - must leave nothing behind
+        std::env::set_var("CARGO_MANIFEST_DIR", &decoy);
+        if let Ok(other) = syn::parse_str::<syn::DeriveInput>("#[graphql(schema_path = \"schema.graphql\", query_path = \"query.graphql\")] struct OtherCrate;") {
+            let _ = guarded(|| derive_src::build_query_and_schema_path(&other).map_err(|x| format!("error: {}", x)));
+        }
         std::env::set_var("CARGO_MANIFEST_DIR", &dir);
         Ok(Env { dir, _scratch: scratch })
     }
